@@ -60,6 +60,12 @@ def draw_costs(ctx, opts):
 def draw_params(ctx, cls, n, opts):
     """Symbolic / enumerated constructor parameters of class cls for n steps."""
     P = {"cls": cls, "n": n}
+    if opts.get("configs"):
+        # a fixed list of parameter tuples (the suite's own grid): solver-enumerated choice
+        P.update(ctx.choice("cfg", opts["configs"]))
+        if cls in REVOLVE_FAMILY:
+            P["uf"], P["ub"], P["wd"], P["rd"] = 1, 1, 2, 2
+        return P
     if cls == "Multistage":
         P["ram"] = ctx.int("ram", 0, None)
         P["disk"] = ctx.int("disk", 0, None)
@@ -67,7 +73,7 @@ def draw_params(ctx, cls, n, opts):
             ctx.assume(P["ram"] + P["disk"] >= 1)
         P["trajectory"] = ctx.choice("trajectory", ["maximum", "revolve"])
     elif cls == "Mixed":
-        P["s"] = ctx.int("s", min(1, n - 1), None)
+        P["s"] = ctx.int("s", min(1, n - 1), opts.get("smax"))
         P["storage"] = ctx.choice("storage", [RAM, DISK])
     elif cls == "TwoLevel":
         P["period"] = ctx.int("period", 1, opts.get("pmax", n + 1), eager=True)
